@@ -1,2 +1,3 @@
-pub mod model;
+pub mod bdl;
 pub mod jsonmut;
+pub mod model;
